@@ -19,7 +19,9 @@ GlobComp(pat, s) == GlobSeg(pat, s) /\ (FirstChar(s) = "." => FirstChar(pat) = "
 GlobPath(pat, p) == Len(pat) = Len(p) /\ \A s \in DOMAIN pat : (s = 1 /\ pat[1] = p[1]) \/ (s > 1 /\ GlobComp(Concat(pat[s]), Concat(p[s])))
 \* index of a tree: path -> the Sid it resolves to (evaluated once per tree)
 IndexOf(c, tree) == [p \in tree |-> FromPath(c, p).sid]
-EntriesOf(idx) == {DVals(idx[p].fields) : p \in {q \in DOMAIN idx : idx[q].type # ""}}
+\* hidden names (leading dot: sidecars, temporary files) are never entities
+Visible(p) == \A s \in DOMAIN p : FirstChar(Concat(p[s])) # "."
+EntriesOf(idx) == {DVals(idx[p].fields) : p \in {q \in DOMAIN idx : idx[q].type # "" /\ Visible(q)}}
 
 (* ---- junk: files and folders that conform to no template, or to another type than searched ---- *)
 \* derived from the first leaf of the universe's basetype, in its own folders
@@ -31,8 +33,14 @@ JunkOf(c, name) ==
       leaf == PathOfSegs(c, FirstString(i))
       n == Len(leaf)
       other == PathOfSegs(c, [FirstString(i) EXCEPT ![4] = NthConcrete(Templates[i].ph[4], 2)])
+      t == PT(c)[CHOOSE k \in PIdx(c, Templates[i].name) : TRUE]
+      \* levels whose folder name is one unrestricted placeholder: a hidden file there (the sidecar of a sibling
+      \* entity, a hidden folder) would resolve to a Sid if a finder ever looked at it
+      open == {s \in DOMAIN t.segs : Len(t.segs[s]) = 1 /\ t.segs[s][1].kind = "ph" /\ Raw.accept[t.segs[s][1].text].any}
   IN IF leaf = <<>> THEN {}
-     ELSE { Append(SubSeq(leaf, 1, n - 1), <<"junk", ".", "txt">>),                  \* misnamed file in a version folder
+     ELSE UNION {{Append(SubSeq(leaf, 1, s - 1), <<".">> \o leaf[s] \o <<".", "data", ".", "json">>),
+                  Append(SubSeq(leaf, 1, s - 1), <<".", "hidden">>)} : s \in open} \cup
+          { Append(SubSeq(leaf, 1, n - 1), <<"junk", ".", "txt">>),                  \* misnamed file in a version folder
             Append(SubSeq(leaf, 1, n - 1), other[Len(other)]),                        \* repeated field disagrees with its folder
             Append(SubSeq(leaf, 1, n - 2), <<"stray">>),                              \* stray folder next to the versions
             Append(SubSeq(leaf, 1, n - 1), <<".", "x", ".", "data", ".", "json">>),   \* a sidecar file
